@@ -108,11 +108,11 @@ def smt_model_inputs(vcfile, mode, prime, timeout=120):
     lines = []
     # call order is not recoverable across the two kinds from SSA numbers alone; harnesses that are
     # decided with the SMT engine draw their ints first or not at all, doubles unconditionally
-    for k in sorted(vals['i']):
-        lines.append('i %d' % vals['i'][k])
-    for k in sorted(vals['d']):
-        v = vals['d'][k]
-        lines.append('d %s' % (repr(v) if v is not None else '0.0'))
+    for k in range(1, max(list(vals['i']) + [0]) + 1):
+        lines.append('i %d' % vals['i'].get(k, 0))
+    for k in range(1, max(list(vals['d']) + [0]) + 1):
+        v = vals['d'].get(k)     # inputs the slicer removed do not matter: any value
+        lines.append('d %s' % (repr(v) if v is not None else '0.5'))
     return lines
 
 
